@@ -102,8 +102,25 @@ struct Sp<'a> {
     opaque: Vec<(usize, usize)>,
     toks: Vec<Tok>,
     next_id: usize,
+    /// inner padding of tags and expressions: none, one space, a newline, a tab (drawn from a stream derived from the segment list)
+    pad: Mix,
 }
 impl<'a> Sp<'a> {
+    /// no padding at all only under the default delimiters: custom delimiters made of operator-like characters
+    /// (`..`, `.|`) would merge with the expression next to them, which is an ambiguity of the spelling, not of the engine
+    fn pad_start(&mut self) -> &'static str {
+        let p = ["", " ", " ", "\n", "\t", ""][(self.pad.next() % 6) as usize];
+        if p.is_empty() && *self.d != Delims::default() { " " } else { p }
+    }
+    /// before a `-` end marker at least one whitespace character is kept (`1-%}` would be a minus sign in other dialects)
+    fn pad_end(&mut self, dash: bool) -> &'static str {
+        if dash {
+            [" ", "\n", "  ", " "][(self.pad.next() % 4) as usize]
+        } else {
+            let p = ["", " ", " ", "\n", ""][(self.pad.next() % 5) as usize];
+            if p.is_empty() && *self.d != Delims::default() { " " } else { p }
+        }
+    }
     fn open(&mut self, delim: &str, l: bool) {
         self.starts.push(self.out.len());
         self.out.push_str(delim);
@@ -112,9 +129,10 @@ impl<'a> Sp<'a> {
     fn tag(&mut self, body: &str, l: bool, r: bool) {
         let bs = self.d.bs.clone();
         self.open(&bs, l);
-        self.out.push(' ');
+        let (a, b) = (self.pad_start(), self.pad_end(r));
+        self.out.push_str(a);
         self.out.push_str(body);
-        self.out.push(' ');
+        self.out.push_str(b);
         self.out.push_str(dash(r));
         self.out.push_str(&self.d.be);
         self.toks.push(Tok::Mark(l, r));
@@ -137,9 +155,10 @@ impl<'a> Sp<'a> {
                 Seg::Expr(i, l, r) => {
                     let vs = self.d.vs.clone();
                     self.open(&vs, *l);
-                    self.out.push(' ');
+                    let (a, b) = (self.pad_start(), self.pad_end(*r));
+                    self.out.push_str(a);
                     self.out.push_str(EXPRS[*i].0);
-                    self.out.push(' ');
+                    self.out.push_str(b);
                     self.out.push_str(dash(*r));
                     self.out.push_str(&self.d.ve);
                     self.toks.push(Tok::Mark(*l, *r));
@@ -222,7 +241,7 @@ enum NodeId {
 
 /// Spells the segment list with the delimiter set and computes the reference output.
 pub fn spell_and_model(segs: &[Seg], d: &Delims) -> (Spelled, String) {
-    let mut sp = Sp { d, out: String::new(), starts: vec![], firsts: vec![], opaque: vec![], toks: vec![], next_id: 0 };
+    let mut sp = Sp { d, out: String::new(), starts: vec![], firsts: vec![], opaque: vec![], toks: vec![], next_id: 0, pad: Mix(hash_str(&format!("{:?}", segs))) };
     let mut ids = vec![];
     sp.segs(segs, &mut ids);
     // reference whitespace semantics on the flat token sequence: a text is trimmed at its start iff the item
@@ -313,7 +332,16 @@ fn render(src: &str, d: &Delims) -> R {
         }
         let mut c = tera::Context::new();
         c.insert("zz_1", "V");
-        match t.render_str(src, &c, false) {
+        let one_off = t.render_str(src, &c, false);
+        // the same source registered under a non-escaping name must render to the same text
+        let registered = t.add_raw_template("t.txt", src).and_then(|_| t.render("t.txt", &c));
+        match (&one_off, &registered) {
+            (Ok(a), Ok(b)) if a != b => return R::Err(format!("render_str gives {a:?} but add_raw_template + render gives {b:?}")),
+            (Ok(a), Err(e)) => return R::Err(format!("render_str gives {a:?} but add_raw_template + render fails: {e}")),
+            (Err(e), Ok(b)) => return R::Err(format!("render_str fails ({e}) but add_raw_template + render gives {b:?}")),
+            _ => {}
+        }
+        match one_off {
             Ok(s) => R::Ok(s),
             Err(e) => match e.kind() {
                 tera::ErrorKind::SyntaxError(_) => R::Syntax(e.to_string()),
